@@ -360,7 +360,7 @@ func decodeTagAndMembershipList(msg []byte) (msgType, tag, []uint16, error) {
 
 	offset := 33
 	for offset < len(msg) {
-		p := uint16(msg[offset+1]<<8) + uint16(msg[offset])
+		p := uint16(msg[offset+1])<<8 + uint16(msg[offset])
 		peers = append(peers, p)
 		offset += 2
 	}
